@@ -12,6 +12,7 @@ import (
 	"fmt"
 	"log/slog"
 	"os"
+	"path/filepath"
 	"sync"
 	"time"
 
@@ -25,6 +26,14 @@ type C27Op struct {
 	Absent   int    `json:"absent,omitempty"`
 	Query    string `json:"query,omitempty"` // all token fieldtoken field
 	File     int    `json:"file,omitempty"`  // corrupt: which stored file (mod count)
+	// Where (corrupt): "" one bit in the first row-data bytes; "late" one bit 40
+	// bytes before the end (metadata / file-level filters, the footer tail stays
+	// intact); "mid" one bit at two thirds of the file; "tail" the last byte;
+	// "truncate" the second half cut off
+	Where string `json:"where,omitempty"`
+	// End (query): "" drain; "close1" Close after the first row and a pause;
+	// "cancel1" cancel the context after the first row; "closenow" Close at once
+	End string `json:"end,omitempty"`
 }
 
 type C27Fault struct {
@@ -39,6 +48,11 @@ type C27Scenario struct {
 	Comp   string     `json:"comp"`
 	Ops    []C27Op    `json:"ops"`
 	Faults []C27Fault `json:"faults,omitempty"`
+	// Store: "" in-memory stores; "fs" FileSystemDataStore as DataStore and
+	// MetaStore; "fsdata" FileSystemDataStore under an in-memory MetaStore
+	Store string `json:"store,omitempty"`
+	// QueryConc: MaxQueryConcurrency (0 = 4)
+	QueryConc int `json:"query_conc,omitempty"`
 }
 
 type C27Outcome struct {
@@ -83,9 +97,27 @@ func RunC27Scenario(s C27Scenario, withLogger bool) (out C27Outcome) {
 			out.Panic = fmt.Sprint(r)
 		}
 	}()
-	ds := NewMemDataStore(false)
-	ms := bs.NewMemoryMetaStore()
-	tr := NewTrace(ds, ms)
+	var ds *MemDataStore
+	var dstore bs.DataStore
+	var ms bs.MetaStore = bs.NewMemoryMetaStore()
+	fsDir := ""
+	if s.Store == "fs" || s.Store == "fsdata" {
+		d, err := os.MkdirTemp("", "verif-c27d-")
+		if err != nil {
+			panic(err)
+		}
+		defer os.RemoveAll(d)
+		fsDir = d
+		fs := bs.NewFileSystemDataStore(d)
+		dstore = fs
+		if s.Store == "fs" {
+			ms = fs
+		}
+	} else {
+		ds = NewMemDataStore(false)
+		dstore = ds
+	}
+	tr := NewTrace(dstore, ms)
 	var fmu sync.Mutex
 	seen := map[string]int{}
 	seenOp := map[string]int{}
@@ -127,6 +159,9 @@ func RunC27Scenario(s C27Scenario, withLogger bool) (out C27Outcome) {
 	}
 	cfg := EngCfg{Tokenizer: "default", Compression: s.Comp, FPR: 0.01, RGRows: 10000, RGBytes: 10 << 20, BufRows: 1000, BufBytes: 1 << 20,
 		IngestBuf: 8, QueryConc: 4, Partition: "none", MaxFileSize: 10 << 30, MaxMerge: 10, ZstdLevel: 3}
+	if s.QueryConc > 0 {
+		cfg.QueryConc = s.QueryConc
+	}
 	mk := func() *bs.BloomSearchEngine {
 		c := cfg.Build()
 		if withLogger {
@@ -141,7 +176,7 @@ func RunC27Scenario(s C27Scenario, withLogger bool) (out C27Outcome) {
 	}
 	eng := mk()
 	ctx := context.Background()
-	w := &World{Data: tr, Meta: tr, MemData: ds, Rows: map[int]*StoredRow{}}
+	w := &World{Data: tr, Meta: tr, MemData: ds, Dir: fsDir, Rows: map[int]*StoredRow{}}
 	nextID := 1
 	stopped := false
 	for i, op := range s.Ops {
@@ -176,6 +211,22 @@ func RunC27Scenario(s C27Scenario, withLogger bool) (out C27Outcome) {
 			fctx, cancel := context.WithTimeout(ctx, 5*time.Second)
 			eng.Flush(fctx)
 			cancel()
+		case "bulk":
+			// many small files: more blocks than a query's pipeline absorbs at once
+			for k := 0; k < maxInt(op.Rows, 1); k++ {
+				rows := []map[string]any{{"id": nextID, "msg": fmt.Sprintf("row %d error", nextID), "tag": "t"}, {"id": nextID + 1, "msg": "again error", "tag": "t"}}
+				nextID += 2
+				done := make(chan error, 1)
+				if eng.IngestRows(ctx, rows, done) == nil {
+					fctx, cancel := context.WithTimeout(ctx, 5*time.Second)
+					eng.Flush(fctx)
+					cancel()
+					select {
+					case <-done:
+					case <-time.After(5 * time.Second):
+					}
+				}
+			}
 		case "ext":
 			var rows []Val
 			for i := 0; i < maxInt(op.Rows, 1); i++ {
@@ -192,14 +243,37 @@ func RunC27Scenario(s C27Scenario, withLogger bool) (out C27Outcome) {
 			case "field":
 				q = bs.NewQuery().Field("msg").Build()
 			}
-			if res, err := eng.Query(ctx, q); err == nil {
-				for res.Next() {
+			qctx, qcancel := context.WithCancel(ctx)
+			if res, err := eng.Query(qctx, q); err == nil {
+				switch op.End {
+				case "closenow":
+					res.Close()
+					path("query closed before its first row")
+				case "close1":
+					if res.Next() {
+						time.Sleep(40 * time.Millisecond) // the pipeline fills up behind the idle consumer
+						path("query closed after its first row")
+					}
+					res.Close()
+				case "cancel1":
+					if res.Next() {
+						time.Sleep(40 * time.Millisecond)
+						qcancel()
+						path("query cancelled after its first row")
+					}
+					for res.Next() {
+					}
+				default:
+					for res.Next() {
+					}
 				}
 				if res.Err() != nil {
 					path("query cursor ended with an error")
 				}
 				res.Close()
+				qcancel()
 			} else {
+				qcancel()
 				path("query returned an error")
 			}
 		case "merge":
@@ -213,7 +287,16 @@ func RunC27Scenario(s C27Scenario, withLogger bool) (out C27Outcome) {
 				path("merge committed")
 			}
 		case "corrupt":
-			files := ds.Files()
+			files := map[string][]byte{}
+			if ds != nil {
+				files = ds.Files()
+			} else if names, err := filepath.Glob(filepath.Join(fsDir, "*.dat")); err == nil {
+				for _, n := range names {
+					if b, err := os.ReadFile(n); err == nil {
+						files[n] = b
+					}
+				}
+			}
 			var names []string
 			for n := range files {
 				names = append(names, n)
@@ -221,10 +304,26 @@ func RunC27Scenario(s C27Scenario, withLogger bool) (out C27Outcome) {
 			if len(names) > 0 {
 				sortStrings(names)
 				n := names[op.File%len(names)]
-				b := files[n]
-				if len(b) > 8 {
-					b[3] ^= 0x20
-					ds.Put(n, b)
+				b := append([]byte(nil), files[n]...)
+				if len(b) > 60 {
+					switch op.Where {
+					case "late":
+						b[len(b)-40] ^= 0x04
+					case "mid":
+						b[len(b)*2/3] ^= 0x10
+					case "tail":
+						b[len(b)-1] ^= 0xff
+					case "truncate":
+						b = b[:len(b)/2]
+					default:
+						b[3] ^= 0x20
+					}
+					if ds != nil {
+						ds.Put(n, b)
+					} else {
+						os.WriteFile(n, b, 0o644)
+					}
+					path("stored file damaged (" + op.Where + ")")
 				}
 			}
 		case "stopwedged":
